@@ -48,7 +48,7 @@ add('C03', 'exploration',
     'Shadow written from RFC 7540 section 6.9; payloads capped at 2^17 bytes (larger windows probe the frame-size limit instead).')
 
 add('C04', 'exploration',
-    'runtime monitoring: shadow advertised-window model from E's wire + boundary-sized hostile DATA',
+    'runtime monitoring: shadow advertised-window model from the endpoint wire + boundary-sized hostile DATA',
     'Advertised windows are reconstructed from WINDOW_UPDATE/SETTINGS frames actually emitted and the moment the SETTINGS '
     'ACK is delivered; the peer sizes DATA against them (exact fit, fit-1, overrun by one, padding 0..255). '
     'remote_flow_control_window and the public connection inbound window are compared after every step; raising '
